@@ -867,13 +867,22 @@ func vfEstabCase(f []string) string {
 // k-th control packet (ZLBs and retransmissions count) of a direction (a = LAC->LNS, b = LNS->LAC):
 //   x<dir><k> drop it, u<dir><k> deliver it twice, l<dir><k> deliver it 300 ms late (reordering),
 //   v<dir><k> deliver it now AND a copy 300 ms late (duplicate + delay).
+//   f<dir><k>: the k-th WRITE ATTEMPT of that side's transport returns an error (runner.sendBody -> channel); k counts
+//   attempts, the other kinds count the writes that succeeded.
 // The bring-up is SCCRQ / SCCRP / SCCCN+ICRQ / ICRP / ICCN.  Result after the exchange has settled (both sessions
 // established and 700 ms of quiet, or 7 s): tunnels and sessions on each side and whether both sessions reached
 // Established — exactly-once delivery means exactly one tunnel and one session per side whatever the network did.
 func vfE2ECase(f []string) string {
+	waitMs := 7000
+	if len(f) > 0 && strings.HasPrefix(f[0], "w") { // w<ms>: how long this case waits for both sessions
+		if v, err := strconv.Atoi(f[0][1:]); err == nil {
+			waitMs = v
+		}
+		f = f[1:]
+	}
 	lacIP := net.IPv4(10, 0, 0, 1).To4()
 	lnsIP := net.IPv4(10, 0, 0, 2).To4()
-	type fault struct{ drop, dup, late, lateDup bool }
+	type fault struct{ drop, dup, late, lateDup, fail bool }
 	faults := map[string]fault{}
 	for _, t := range f {
 		if len(t) < 3 {
@@ -890,6 +899,11 @@ func vfE2ECase(f []string) string {
 			fl.late = true
 		case 'v':
 			fl.lateDup = true
+		case 'f':
+			ff := faults["F"+key]
+			ff.fail = true
+			faults["F"+key] = ff
+			continue
 		}
 		faults[key] = fl
 	}
@@ -899,7 +913,7 @@ func vfE2ECase(f []string) string {
 	link := func(dir string, from, to net.IP, dst *Component) (SendControlFn, chan []byte) {
 		ch := make(chan []byte, 256)
 		var mu sync.Mutex
-		count := 0
+		count, tries := 0, 0
 		deliver := func(wire []byte) {
 			pkt := &dataplane.ParsedPacket{
 				Protocol: models.ProtocolL2TP,
@@ -925,6 +939,12 @@ func vfE2ECase(f []string) string {
 			}
 			wire := append(h.AppendTo(nil, len(body)), body...)
 			mu.Lock()
+			a := tries
+			tries++
+			if faults[fmt.Sprintf("%s%d", "F"+dir, a)].fail {
+				mu.Unlock()
+				return errors.New("verif: transport write failed")
+			}
 			k := count
 			count++
 			mu.Unlock()
@@ -1000,10 +1020,10 @@ func vfE2ECase(f []string) string {
 	}
 	if err := lac.StartLACSession(LACBringUpRequest{PPPoESessionID: 7, LocalIP: lacIP,
 		TunnelSpecs: []TunnelSpec{{ServerIP: lnsIP}}}); err != nil {
-		close(stop)
-		return "e2e lac-start-failed"
+		// the LAC gave up at once (its SCCRQ could not be written): report the state like any other outcome
+		_ = err
 	}
-	deadline := time.Now().Add(7 * time.Second)
+	deadline := time.Now().Add(time.Duration(waitMs) * time.Millisecond)
 	settledAt := time.Time{}
 	for time.Now().Before(deadline) {
 		_, _, e1 := count(lac)
